@@ -213,7 +213,11 @@ class Kernel(object):
             import whoosh
             base = os.path.dirname(os.path.abspath(whoosh.__file__))
             files = [os.path.join(base, f) for f in LINE_FILES]
-        self._lines = {"p": p, "left": budget, "rng": self.stream("lines"), "files": frozenset(files), "seen": 0, "visits": {}}
+        self._lines = {"p": p, "left": budget, "rng": self.stream("lines"), "files": frozenset(files), "seen": 0, "visits": {},
+                       "salt": self.stream("lines").getrandbits(62)}
+        # memo tables that survive from one run to the next would make the second run of a seed execute fewer lines
+        from whoosh.util import fib
+        fib(64)
 
     def _trace_global(self, frame, event, arg):
         if frame.f_code.co_filename in self._lines["files"]:
@@ -229,7 +233,10 @@ class Kernel(object):
             key = (frame.f_code, frame.f_lineno)
             n = st["visits"].get(key, 0) + 1
             st["visits"][key] = n
-            if st["left"] > 0 and st["rng"].random() * n < st["p"]:
+            # the coin is a function of (run seed, code location, n) alone, not of how many other
+            # lines ran before: a memo hit elsewhere must not shift every later decision
+            co = frame.f_code
+            if st["left"] > 0 and (hash((st["salt"], co.co_name, frame.f_lineno, n)) % 1000003) * n < st["p"] * 1000003:
                 cur = self.current
                 if (cur is not None and not cur.in_event and cur.thread is threading.current_thread()
                         and not self.aborting and cur.proc.alive and len(self._runnable(exclude=cur)) > 0):
